@@ -4,6 +4,8 @@
 import NutsModel.Compose.Did
 import NutsProofs.Lemmas.C09
 import NutsProofs.Lemmas.C10
+import NutsProofs.Lemmas.C10Obs
+import NutsProofs.Props.C09
 namespace Nuts.Compose.Did
 open Nuts Nuts.C10 Nuts.C09
 
@@ -116,4 +118,293 @@ theorem mem_accepted (c : C09.Cfg) : ∀ (l : List Delivery) (s : Store) (e : Ev
         obtain ⟨rfl, rfl⟩ := hl
         right
         exact ⟨qs, tx, d, post, s', rfl, he, by simpa [run] using hok⟩
+
+theorem step_ok_inv (c : C09.Cfg) (s : Store) (tx : Tx) (pd : Option NDoc) (h : (step c s tx pd).2 = "ok") :
+    ∃ s', deliver c s tx pd = .ok s' ∧ (step c s tx pd).1 = s' := by
+  unfold step at h ⊢
+  cases hd : deliver c s tx pd with
+  | ok s' => exact ⟨s', rfl, rfl⟩
+  | err e => rw [hd] at h; exact absurd h (err_ne_ok e)
+  | panic e => rw [hd] at h; exact absurd h (panic_ne_ok e)
+
+/-! ### the store only grows -/
+
+theorem addDid_mono (cfg : C10.Cfg) (st st' : DidState) (e : Event) (h : addDid cfg st e = .ok (some st')) :
+    e ∈ st'.events ∧ ∀ x, x ∈ st.events → x ∈ st'.events := by
+  unfold addDid at h
+  split at h
+  · cases h
+  · simp only at h
+    split at h
+    · cases h
+    · cases h
+    · split at h
+      · cases h
+      · simp only [Res.ok.injEq, Option.some.injEq] at h
+        subst h
+        simp only
+        have hp := insert_perm e st.events
+        exact ⟨hp.mem_iff.mpr List.mem_cons_self, fun x hx => hp.mem_iff.mpr (List.mem_cons_of_mem _ hx)⟩
+
+theorem add_mono (cfg : C10.Cfg) (s s' : Store) (e : Event) (h : add cfg s e = .ok s') (id : String) (x : Event)
+    (hx : x ∈ (s.get id).events) : x ∈ (s'.get id).events := by
+  obtain ⟨hother, hown⟩ := add_get cfg s s' e h
+  by_cases hid : id = e.doc.id
+  · subst hid
+    rcases hown with ⟨_, rfl⟩ | hsome
+    · exact hx
+    · exact (addDid_mono cfg _ _ e hsome).2 x hx
+  · rw [hother id hid]; exact hx
+
+theorem step_mono (c : C09.Cfg) (s : Store) (p : Delivery) (id : String) (x : Event)
+    (hx : x ∈ (s.get id).events) : x ∈ ((step c s p.1 p.2).1.get id).events := by
+  by_cases h : ∃ s', deliver c s p.1 p.2 = .ok s'
+  · obtain ⟨s', hs'⟩ := h
+    obtain ⟨h1, _, d, _, _, hadd⟩ := step_ok c s s' p hs'
+    rw [h1]
+    exact add_mono c.store s s' _ hadd id x hx
+  · rw [(step_not_ok c s p (fun s' hs' => h ⟨s', hs'⟩)).1]; exact hx
+
+theorem run_mono (c : C09.Cfg) : ∀ (l : List Delivery) (s : Store) (id : String) (x : Event),
+    x ∈ (s.get id).events → x ∈ ((run c s l).get id).events := by
+  intro l
+  induction l with
+  | nil => intro s id x hx; exact hx
+  | cons p ps ih => intro s id x hx; exact ih _ id x (step_mono c s p id x hx)
+
+/-! ### every reachable store satisfies C10's invariants -/
+
+theorem run_storeInv (c : C09.Cfg) (l : List Delivery) : StoreInv c.store (run c {} l) :=
+  addAll_storeInv c.store _ {} _ (storeInv_empty c.store) (run_is_addAll c l {})
+
+theorem run_inv (c : C09.Cfg) (l : List Delivery) (id : String) : Inv c.store ((run c {} l).get id) :=
+  get_inv c.store _ (run_storeInv c l) id
+
+/-- a DID for which `Resolve` answers anything has events -/
+theorem resolve_ok_events_ne (cfg : C10.Cfg) (s : Store) (id : String) (hinv : Inv cfg (s.get id))
+    (rm : Option ResolveMeta) (p : Doc × Meta) (h : resolve s id rm = .ok p) : (s.get id).events ≠ [] := by
+  intro hnil
+  have hlen := applyAll_length hinv.chain
+  rw [hnil] at hlen
+  have : (s.get id).chain = [] := List.eq_nil_of_length_eq_zero hlen
+  unfold resolve at h
+  rw [this] at h
+  simp [resolveChain] at h
+
+theorem succeeds_events_ne (cfg : C10.Cfg) (s : Store) (id : String) (hinv : Inv cfg (s.get id))
+    (prevs : List Nat) (cur : Doc) (h : Succeeds s id prevs cur) : (s.get id).events ≠ [] := by
+  rcases h with ⟨p, _, m, hr⟩ | ⟨_, m, hr⟩
+  · exact resolve_ok_events_ne cfg s id hinv _ _ hr
+  · exact resolve_ok_events_ne cfg s id hinv _ _ hr
+
+/-! ### source transactions of every stored version are stored events -/
+
+theorem applyEvent_own_ref (cfg : C10.Cfg) (evs : List Event) (cur : Option Meta) (e : Event) (d : Doc) (m : Meta)
+    (h : applyEvent cfg evs cur e = .ok (d, m)) : e.ref ∈ m.sourceTx := by
+  unfold applyEvent applyDocument at h
+  cases cur with
+  | none =>
+    simp at h
+    obtain ⟨_, rfl⟩ := h
+    simp
+  | some c =>
+    simp only at h
+    split at h
+    · simp at h
+      obtain ⟨_, rfl⟩ := h
+      simp
+    · split at h
+      · rename_i d' src hf
+        have hs := foldl_step_srcs cfg evs _ _ _ _ _ hf
+        simp at h
+        obtain ⟨_, rfl⟩ := h
+        simp only
+        rw [hs]
+        simp
+      · cases h
+      · cases h
+
+theorem applyAll_all_src (cfg : C10.Cfg) (evs : List Event) (R : List Ref) :
+    ∀ (es : List Event) (cur : Option Meta) (c : List (Doc × Meta)), SrcIn R cur → (∀ e ∈ es, e.ref ∈ R) →
+      applyAll cfg evs cur es = .ok c → ∀ p ∈ c, p.2.sourceTx ≠ [] ∧ ∀ r ∈ p.2.sourceTx, r ∈ R := by
+  intro es
+  induction es with
+  | nil => intro cur c _ _ h p hp; simp [applyAll] at h; subst h; cases hp
+  | cons e es ih =>
+    intro cur c hcur hes h p hp
+    unfold applyAll at h
+    split at h
+    · rename_i d m he
+      split at h
+      · rename_i rest hr
+        cases h
+        have hm := applyEvent_src cfg evs R cur hcur e (hes e List.mem_cons_self) d m he
+        rcases List.mem_cons.mp hp with rfl | hp
+        · exact ⟨List.ne_nil_of_mem (applyEvent_own_ref cfg evs cur e d m he), fun r hr => hm m rfl r hr⟩
+        · exact ih (some m) rest hm (fun x hx => hes x (List.mem_cons_of_mem _ hx)) hr p hp
+      · cases h
+      · cases h
+    · cases h
+    · cases h
+
+/-- under C10's per-DID invariant every stored version has source transactions, and each is the ref of a stored event -/
+theorem inv_chain_sources (cfg : C10.Cfg) (st : DidState) (hinv : Inv cfg st) (p : Doc × Meta) (hp : p ∈ st.chain) :
+    p.2.sourceTx ≠ [] ∧ ∀ r ∈ p.2.sourceTx, ∃ e ∈ st.events, e.ref = r := by
+  have := applyAll_all_src cfg st.events (refs st.events) st.events none st.chain
+    (fun x hx => by cases hx) (fun e he => List.mem_map.mpr ⟨e, he, rfl⟩) hinv.chain p hp
+  refine ⟨this.1, fun r hr => ?_⟩
+  obtain ⟨e, he, her⟩ := List.mem_map.mp (this.2 r hr)
+  exact ⟨e, he, her⟩
+
+/-- whatever `Resolve` answers is a stored version -/
+theorem resolve_ok_mem_chain (s : Store) (id : String) (rm : Option ResolveMeta) (p : Doc × Meta)
+    (h : resolve s id rm = .ok p) : p ∈ (s.get id).chain := by
+  unfold resolve at h
+  obtain ⟨newer, older, hc, _, _⟩ := resolveChain_sound rm _ p h
+  have : p ∈ (s.get id).chain.reverse := by rw [hc]; simp
+  exact List.mem_reverse.mp this
+
+/-! ### chain of custody -/
+
+/-- the key that made the signature is listed for capabilityInvocation by a controller (`C09.ControllerFor`: the version
+    itself, or a listed controller DID resolved for the transaction's prevs / signing time and active within the depth
+    bound) of the stored version `v` -/
+def KeyControls (c : C09.Cfg) (s : Store) (tx : Tx) (v : Doc) : Prop :=
+  ∃ ctrl en, ControllerFor c s tx v ctrl ∧ en ∈ ctrl.f .capInv ∧ KeyInfo.ofBody en.body = .key tx.signer
+
+/-- the authorisation under which `(tx, d)` enters the store `s`: a creation signed by the key the transaction embeds, from
+    which the DID is derived; or an update whose signer controls the version it succeeds AND every other version of the DID
+    that its prevs name -/
+def Authorised (c : C09.Cfg) (s : Store) (tx : Tx) (d : NDoc) : Prop :=
+  (tx.embedded = some tx.signer ∧ d.idID = c.didThumb tx.signer) ∨
+  (tx.embedded = none ∧
+    (∃ cur, Succeeds s d.id tx.prevs cur ∧ KeyControls c s tx cur) ∧
+    ∃ others, otherNamed s d.id tx.prevs = .ok others ∧ ∀ v ∈ others,
+      (∃ p ∈ tx.prevs, ∃ m, resolve s d.id (some { allowDeactivated := true, sourceTx := some p }) = .ok (v, m)) ∧
+      KeyControls c s tx v)
+
+theorem deliver_ok_authorised (c : C09.Cfg) (hinj : ∀ a b, c.thumb a = c.thumb b → a = b)
+    (s s' : Store) (tx : Tx) (d : NDoc) (h : deliver c s tx (some d) = .ok s') : Authorised c s tx d := by
+  obtain ⟨hv, hcb⟩ := deliver_ok_inv c s s' tx (some d) h
+  cases he : tx.embedded with
+  | some k =>
+    left
+    obtain ⟨d', hpd, _, hid, _, _⟩ := C09.Props.accepted_create_sound c s s' tx (some d) k hcb he
+    cases hpd
+    have hs := verifySig_embedded s tx k he hv
+    subst hs
+    exact ⟨he, hid⟩
+  | none =>
+    right
+    refine ⟨he, ?_, ?_⟩
+    · obtain ⟨d', cur, ctrl, e, hpd, hsucc, hctrl, hmem, hk⟩ :=
+        C09.Props.accepted_update_signed_by_controller_key c s s' tx (some d) hinj h he
+      cases hpd
+      exact ⟨cur, hsucc, ctrl, e, hctrl, hmem, hk⟩
+    · obtain ⟨d', k, others, hpd, hk, ho, hall⟩ :=
+        C09.Props.accepted_update_authorised_under_every_named_version c s s' tx (some d) hcb he
+      cases hpd
+      have hs := verifySig_kid s tx he hv
+      rw [resolvePublicKey_ok_store c.maxDepth s tx.kid tx.prevs k hk] at hs
+      cases hs
+      refine ⟨others, ho, fun v hv' => ?_⟩
+      obtain ⟨hnamed, ctrl, e, k', hctrl, hmem, hk', ht⟩ := hall v hv'
+      have := hinj _ _ ht
+      subst this
+      exact ⟨hnamed, ctrl, e, hctrl, hmem, hk'⟩
+
+/-- `e` entered the store as an accepted delivery of the history `l`, authorised (`Authorised`) in the state the node had
+    reached when it was delivered -/
+def EnteredAuthorised (c : C09.Cfg) (l : List Delivery) (e : Event) : Prop :=
+  ∃ pre tx d post s', l = pre ++ (tx, some d) :: post ∧ e = eventOf tx d ∧
+    deliver c (run c {} pre) tx (some d) = .ok s' ∧ Authorised c (run c {} pre) tx d
+
+/-- `e` entered the store as an accepted CREATION: signed by the key the transaction embeds, the DID being that key's
+    thumbprint -/
+def EnteredAsCreation (c : C09.Cfg) (l : List Delivery) (e : Event) : Prop :=
+  ∃ pre tx d post s', l = pre ++ (tx, some d) :: post ∧ e = eventOf tx d ∧
+    deliver c (run c {} pre) tx (some d) = .ok s' ∧ tx.embedded = some tx.signer ∧ d.idID = c.didThumb tx.signer
+
+theorem enteredAsCreation_lift (c : C09.Cfg) (l l' : List Delivery) (e : Event) (h : EnteredAsCreation c l e) :
+    EnteredAsCreation c (l ++ l') e := by
+  obtain ⟨pre, tx, d, post, s', hl, he, hok, h1, h2⟩ := h
+  exact ⟨pre, tx, d, post ++ l', s', by rw [hl]; simp, he, hok, h1, h2⟩
+
+theorem stored_events_authorised (c : C09.Cfg) (hinj : ∀ a b, c.thumb a = c.thumb b → a = b)
+    (l : List Delivery) (id : String) (e : Event) (h : e ∈ ((run c {} l).get id).events) :
+    e.doc.id = id ∧ EnteredAuthorised c l e := by
+  rw [run_eq_runHist] at h
+  obtain ⟨pre, tx, d, post, hl, he, hid, hok⟩ := C09.Props.resolvable_only_if_accepted c l id e h
+  rw [← run_eq_runHist] at hok
+  obtain ⟨s', hs', _⟩ := step_ok_inv c _ tx (some d) hok
+  exact ⟨by rw [he, ← hid]; rfl, pre, tx, d, post, s', hl, he, hs', deliver_ok_authorised c hinj _ s' tx d hs'⟩
+
+/-- the invariant "every DID that has events has its creation among them" -/
+def HasCreation (c : C09.Cfg) (l : List Delivery) : Prop :=
+  ∀ id, ((run c {} l).get id).events ≠ [] → ∃ e ∈ ((run c {} l).get id).events, EnteredAsCreation c l e
+
+theorem hasCreation_step (c : C09.Cfg) (l : List Delivery) (p : Delivery) (ih : HasCreation c l) :
+    HasCreation c (l ++ [p]) := by
+  intro id hne
+  have hrun : run c {} (l ++ [p]) = (step c (run c {} l) p.1 p.2).1 := by rw [run_append]; rfl
+  rw [hrun] at hne ⊢
+  by_cases hs : ((run c {} l).get id).events = []
+  · obtain ⟨x, hx⟩ := List.exists_mem_of_ne_nil _ hne
+    rcases step_events c (run c {} l) p.1 p.2 id x hx with h0 | ⟨hok, d, hpd, he, hid⟩
+    · rw [hs] at h0; cases h0
+    · obtain ⟨s', hs', _⟩ := step_ok_inv c _ p.1 p.2 hok
+      obtain ⟨hv, hcb⟩ := deliver_ok_inv c _ s' p.1 p.2 hs'
+      cases hemb : p.1.embedded with
+      | none =>
+        obtain ⟨d', cur, _, _, _, _, hpd', _, hsucc, _⟩ := C09.Props.accepted_update_sound c _ s' p.1 p.2 hcb hemb
+        rw [hpd] at hpd'
+        cases hpd'
+        rw [hid] at hsucc
+        exact absurd hs (succeeds_events_ne c.store _ id (run_inv c l id) _ _ hsucc)
+      | some k =>
+        obtain ⟨d', hpd', _, hidk, _, _⟩ := C09.Props.accepted_create_sound c _ s' p.1 p.2 k hcb hemb
+        rw [hpd] at hpd'
+        cases hpd'
+        have hk := verifySig_embedded _ p.1 k hemb hv
+        subst hk
+        refine ⟨x, hx, l, p.1, d, [], s', ?_, he, ?_, hemb, hidk⟩
+        · obtain ⟨tx, pd⟩ := p
+          simp only at hpd
+          rw [hpd]
+        · rw [← hpd]; exact hs'
+  · obtain ⟨e0, he0, hc0⟩ := ih id hs
+    exact ⟨e0, step_mono c _ p id e0 he0, enteredAsCreation_lift c l [p] e0 hc0⟩
+
+theorem hasCreation_from (c : C09.Cfg) : ∀ (l l₀ : List Delivery), HasCreation c l₀ → HasCreation c (l₀ ++ l) := by
+  intro l
+  induction l with
+  | nil => intro l₀ h; simpa using h
+  | cons p ps ih =>
+    intro l₀ h
+    have := ih (l₀ ++ [p]) (hasCreation_step c l₀ p h)
+    simpa using this
+
+theorem hasCreation_all (c : C09.Cfg) (l : List Delivery) : HasCreation c l := by
+  have := hasCreation_from c l [] (by intro id hne; simp [run, Store.get, alGet] at hne)
+  simpa using this
+
+/-- the stores a node can be in -/
+inductive Reachable (c : C09.Cfg) : Store → Prop where
+  | empty : Reachable c {}
+  | step (s : Store) (tx : Tx) (pd : Option NDoc) : Reachable c s → Reachable c (step c s tx pd).1
+
+theorem reachable_iff_run (c : C09.Cfg) (s : Store) : Reachable c s ↔ ∃ l, s = run c {} l := by
+  constructor
+  · intro h
+    induction h with
+    | empty => exact ⟨[], rfl⟩
+    | step s tx pd _ ih =>
+      obtain ⟨l, rfl⟩ := ih
+      exact ⟨l ++ [(tx, pd)], by rw [run_append]; rfl⟩
+  · rintro ⟨l, rfl⟩
+    suffices ∀ (l : List Delivery) (s : Store), Reachable c s → Reachable c (run c s l) from this l {} .empty
+    intro l
+    induction l with
+    | nil => intro s hs; exact hs
+    | cons p ps ih => intro s hs; exact ih _ (.step s p.1 p.2 hs)
 end Nuts.Compose.Did
